@@ -218,6 +218,12 @@ def main(run, tier):
         if not bad:
             run.discharged(name, 'E2/tables', 'exec', 0.0, detail=('%d printed runs' % runs) if prod.number % 50 == 0 else None)
     run.extra['printed_runs'] = total
+    # ---- E1: the Indentator methods against contracts taken from the statement
+    from ..e1run import verify_functions
+    import contracts.indentation as ci
+    imod = importlib.import_module(ci.MODULE)
+    cs, lemmas, env = ci.build(imod)
+    verify_functions(run, cs, dict((c.qualname, c) for c in cs), {}, tier=tier, both=(tier == 'thorough'))
     # ---- bounded: whole programs
     es5 = importlib.import_module('calmjs.parse.parsers.es5')
     unparsers = importlib.import_module('calmjs.parse.unparsers.es5')
@@ -263,7 +269,8 @@ def main(run, tier):
     run.trust('children print relative to the level they start at and restore it (induction hypothesis = O-depth of their '
               'own productions)', 'Lexer (token boundaries of the output) in the bounded oracle only')
     run.assume('lines that continue a multi-line string/comment token are exempt (holes are atoms in the E2 runs)',
-               'Indentator methods are exercised for real in every run but have no separate SMT contract yet')
+               'Indentator.layout_handler_newline_optional and walker.process_layouts are exercised for real in every run '
+               'but have no SMT contract (E1 covers indent/dedent/_generate_indents/layout_handler_newline)')
 
 
 def replay(data):
